@@ -453,7 +453,7 @@ def canon_int(e, fi=None, var_atoms=None, _depth=0):
         if isinstance(e.op, ast.FloorDiv):
             return ("fdiv", a, b)
         if isinstance(e.op, ast.Mod):
-            return ("mod", a, b)
+            return canon_mod(a, b)
         if isinstance(e.op, ast.Mult):
             if a[0] == "c" and b[0] == "c":
                 return ("c", a[1] * b[1])
@@ -473,6 +473,13 @@ def canon_int(e, fi=None, var_atoms=None, _depth=0):
         if isinstance(e.op, ast.Div):
             return ("div", a, b)
     return ("?", norm(e))
+
+
+def canon_mod(a, b):
+    """(k * x) mod (k * n) == k * (x mod n) for positive integers k, n: one spelling for both"""
+    if b[0] == "c" and a[0] == "mul" and a[1][0] == "c" and a[1][1] > 0 and b[1] > 0 and b[1] % a[1][1] == 0 and b[1] // a[1][1] > 1:
+        return ("mul", a[1], ("mod", a[2], ("c", b[1] // a[1][1])))
+    return ("mod", a, b)
 
 
 def is_floor_ms(c, us):
